@@ -66,6 +66,17 @@ def make_solver(case, S):
     rf, _l2 = util.partition_form(rf, S["n"], case.get("ppack", "list"), case["seed"] + 32)
     kw = dict(rb=rb, rf=rf, order=case["order"])
     h = case["h"]
+    if fam == "se2" and case.get("mfull", "no") != "no" and not S["idx"]["rb"] and not S["idx"]["rf"] and S["n"] >= 2:
+        # SolveExp2 takes any non-singular mass matrix: fully populated, symmetric or not (the reference is the
+        # batch solution of the same solver, and get_f2x against a unit add-on)
+        rngm = util.rng_of(case["seed"] + 55)
+        N_ = rngm.standard_normal((S["n"], S["n"]))
+        if case["mfull"] == "sym":
+            N_ = (N_ + N_.T) / 2
+        np.fill_diagonal(N_, 0.0)
+        M = np.diag(S["m"]) + 0.25 * np.sqrt(np.outer(S["m"], S["m"])) * N_ / max(np.abs(N_).sum(axis=1).max(), 1e-300)
+        return lambda: ode.SolveExp2(M, S["B"], np.diag(S["k"]), h, rb=None if rb is None else [], rf=None,
+                                     order=case["order"])
     if fam in ("unc", "eig"):
         return lambda: ode.SolveUnc(M, Bm, K, h, **kw)
     if fam == "cdf_su":
@@ -161,6 +172,9 @@ def oracle(case, R):
         return obj
 
     R.label("force:" + case.get("fpack", "same"))
+    if getattr(ts, "m", None) is not None and np.ndim(ts.m) == 2 and not np.array_equal(ts.m, np.diag(np.diag(ts.m))):
+        R.label("mass:full_" + ("sym" if np.array_equal(ts.m, ts.m.T) else "nonsym"),
+                "mass:full+f2x" if any(op[0] == "f2x" for op in case["ops"]) and order == 1 else "mass:full,no f2x")
     for op in case["ops"]:
         kind = op[0]
         nops += 1
@@ -264,6 +278,9 @@ def histories(draw, family):
     nrb = draw(st.integers(0, 2))
     nel = draw(st.integers(2 if family in ("eig", "cdf", "cdf_su") else 0, 3))
     nrf = draw(st.integers(0, 2))
+    mfull = draw(st.sampled_from(["no", "no", "sym", "nonsym"])) if family == "se2" else "no"
+    if mfull != "no":
+        nrb, nrf, nel = 0, 0, max(nel, 2)       # a fully populated mass couples everything: elastic equations only
     if nrb + nel + nrf == 0:
         nel = 1
 
@@ -331,6 +348,7 @@ def histories(draw, family):
             # (the generator interface is documented to need contiguous blocks: the sets stay in ascending order)
             "ppack": draw(st.sampled_from(["list", "list", "array", "int32", "bool"])),
             "icform": draw(st.sampled_from(["asis", "asis", "zeros_d0", "zeros_v0", "zeros_both"])),
+            "mfull": mfull,
             "fscale": draw(st.sampled_from([1.0, 1.0, 1.0, 1e-10, 2.0 ** -30, 1e-6, 1e8, 2.0 ** 30]))}
 
 
